@@ -15,6 +15,10 @@ func simWorld(rc *kernel.RunCtx) {
 		c10World(rc)
 	case "C11":
 		c11World(rc)
+	case "C12":
+		c12World(rc)
+	case "C14":
+		c14World(rc)
 	default:
 		rc.Fail("harness", "render world does not serve %s", rc.Prop)
 	}
